@@ -291,13 +291,15 @@ Definition dispatch (cf : cfg) (st : state) (c : N) (m : msg) : state * out :=
   match resolve st (m_dest m) with
   | None => (st, [(c, OErr (if m_noauto m then ENameHasNoOwner else EServiceUnknown) (m_serial m))])
   | Some r =>
+    (* fd capability first: the gate below updates the pending-reply table, which must only happen for messages that
+       are going to be delivered (order since the fix for finding F7) *)
+    if (0 <? m_nfds m) && negb (conn_fds st r) then (st, [(c, OErr ENotSupported (m_serial m))])
+    else
     let '(pl, res) := check_security_policy cf (st_now st) (st_pend st) c r m in
     let st' := set_pend st pl in
     match res with
     | Some e => (st', [(c, OErr e (m_serial m))])
-    | None => if (0 <? m_nfds m) && negb (conn_fds st r)
-              then (st', [(c, OErr ENotSupported (m_serial m))])
-              else (st', (r, OFwd c m) :: eav_out cf st c r m)
+    | None => (st', (r, OFwd c m) :: eav_out cf st c r m)
     end
   end.
 
